@@ -274,7 +274,7 @@ static Reg r_pgm("geoidpgm", [](const Args& a) {
     if (!e.empty()) { bad("accepted-file-unreadable", "height(" + fmt(la) + ", " + fmt(lo) + ") threw " + e + " on an accepted file"); break; }
     if (big) { double z = 0, ref = g.Offset() + g.Scale() * z; if (!(v == ref)) { bad("sparse-raster-value", "height " + fmt(v) + " on an all-zero raster, expected " + fmt(ref)); break; } }
   }
-  if (!big) {
+  if (!big && uint64_t(g._width) * uint64_t(g._height) <= (1u << 22)) {     // the thread-safe constructor reads the whole raster into memory
     Ctor t = construct(name, tmpdir(), cubic, true);
     if (!t.g) bad("header-validation", "the thread-safe constructor rejects a file the plain one accepts: " + t.err);
     else if (t.g->Offset() != g.Offset() || t.g->Scale() != g.Scale() || !t.g->ThreadSafe() || !t.g->Cache()) bad("header-validation", "thread-safe object differs in offset/scale/flags");
@@ -314,6 +314,34 @@ static Reg r_big("geoidbig", [](const Args& a) {
     }
   }
   emit("1 " + std::to_string(n));
+});
+
+// rasters with a dimension above 2^30: the index arithmetic of rawval / CacheArea is done in int.  The probe runs in a child
+// process, so that a sanitizer abort is a result of this op and not the end of the harness.
+#include <sys/wait.h>
+static Reg r_huge("geoidhuge", [](const Args& a) {
+  // mode : 0 = height 2^30+1 (w = 2), cubic height at the south pole; 1 = width 1 500 000 000 (h = 3), height outside a small area cache
+  int mode = std::atoi(a[0].c_str()); long w = mode == 0 ? 2 : 1500000000l, h = mode == 0 ? (1l << 30) + 1 : 3;
+  std::string name = "U" + std::to_string(getpid()), path = pgm_path(name);
+  std::string H = "P5\n# Offset -108\n# Scale 0.003\n" + std::to_string(w) + " " + std::to_string(h) + "\n65535\n";
+  if (!write_raw(path, H, 2ull * uint64_t(w) * uint64_t(h), 0)) { emit("skip"); stat("sparse-files-unavailable"); return; }
+  std::fflush(stdout); std::fflush(stderr);
+  pid_t pid = fork();
+  if (pid == 0) {
+    int dn = ::open("/dev/null", O_WRONLY); if (dn >= 0) { dup2(dn, 1); dup2(dn, 2); }
+    int rc = 0;
+    try { Geoid g(name, tmpdir(), true, false);
+      if (mode == 0) { double v = g(-90, 0); rc = (v == g.Offset()) ? 0 : 4; }
+      else { g.CacheArea(-10, 10, 10, 10.001); double v = g(0, -100); rc = (v == g.Offset()) ? 0 : 4; } }
+    catch (const GeographicErr&) { rc = 3; } catch (...) { rc = 5; }
+    _exit(rc);
+  }
+  int st = 0; waitpid(pid, &st, 0); std::remove(path.c_str());
+  int rc = WIFEXITED(st) ? WEXITSTATUS(st) : 100 + (WIFSIGNALED(st) ? WTERMSIG(st) : 0);
+  emit(std::to_string(rc));
+  // 0 = evaluated correctly, 3 = GeographicErr (a constructor that refuses such sizes would be fine); anything else: abort / wrong value
+  if (rc != 0 && rc != 3) bad("huge-dimension-index-overflow", std::string(mode == 0 ? "raster 2 x 1073741825, cubic height at the south pole" : "raster 1500000000 x 3, height outside a small area cache") +
+    ": child process ended with status " + std::to_string(rc) + " (sanitizer abort: int overflow in rawval / CacheArea) [class:dimension-above-2^30]");
 });
 
 // default path / name lookup
@@ -526,6 +554,8 @@ void gv::generate(const std::string& tier, uint64_t seed) {
       run("geoidbig", {r.coin() ? "1" : "0", hs(b.str()), std::to_string(d.first), std::to_string(d.second), std::to_string(r.next() % 1000000)});
       stratum("large-raster-sparse");
     }
+    // dimensions above 2^30 (open finding: int overflow in the index arithmetic)
+    if (i == 9 || (thorough && i % 300 == 9)) { run("geoidhuge", {std::to_string(int(i / 300) % 2 + (thorough ? 0 : int(seed % 2)))}); stratum("dimension-above-2^30"); }
     // default path and name
     if (i % 8 == 3) {
       auto ev = [&]() -> std::string { int q = r.irange(0, 5); return q == 0 ? "-" : q == 1 ? hs("") : hs(r.pick(std::vector<std::string>{"/data/geo", "relative/dir", "/", "/x y", "egm2008-1", "egm84-15", "/usr/share/GeographicLib"})); };
